@@ -2,7 +2,8 @@
 (***************************************************************************)
 (* C11, code -> spec.  Record kinds:                                       *)
 (*  "sim":  the log of one DirectSimulation object: events                 *)
-(*      [ev |-> "run", trials |-> <<shots>>, lens |-> <<Len(ee), Len(succ),*)
+(*      [ev |-> "run", requested, interrupted (an exception ended the    *)
+(*       call early), trials |-> <<shots completed>>, lens |-> <<Len(ee), Len(succ), *)
 (*        Len(cs), n_runs>>]   after each run(k) call, and                 *)
 (*      [ev |-> "results", n_fail, n_runs, n_success, p_est_k, p_se2n1_k]  *)
 (*      after each get_results() (p_est and p_se^2 (n+1) as integers / G)  *)
@@ -47,7 +48,8 @@ FailedSimEvent(r) ==
   IF e.ev = "run" THEN
        UNION { S!FailedTrial(Code(tid), AsTrial(e.trials[j])) : j \in DOMAIN e.trials }
   \cup (IF e.lens = <<nruns, nruns, nruns, nruns>> THEN {} ELSE {"result_lists_all_have_length_n_runs"})
-  \cup (IF e.requested = Len(e.trials) THEN {} ELSE {"run_k_performs_k_trials"})
+  \cup (IF (IF e.interrupted THEN Len(e.trials) < e.requested ELSE e.requested = Len(e.trials))
+        THEN {} ELSE {"run_k_performs_k_trials"})
   ELSE
        (IF e.n_runs = nruns /\ e.n_fail = S!NFail /\ e.n_success = nruns - S!NFail
         THEN {} ELSE {"n_fail_counts_the_failures"})
